@@ -177,11 +177,45 @@ pub fn layout_oracles(key: Option<usize>, lay: &Layout, built: &Built, real_debu
     }
     // --- C20: printed plan, under the plain `{:?}` and under other format specs (a builder that is
     // a field of a `#[derive(Debug)]` struct inherits the caller's `#`, precision and width)
-    let want: Vec<Vec<Vec<String>>> = lay
+    // expected print per position: the sanitised name, or `None` for an unnamed system (any
+    // placeholder `unnamed_system_<n>`, distinct systems distinct placeholders)
+    let want: Vec<Vec<Vec<Option<String>>>> = lay
         .stages
         .iter()
-        .map(|st| st.iter().map(|g| g.iter().map(|t| if info(t).name.is_empty() { format!("unnamed_system_{}", info(t).id) } else { sanitise(&info(t).name) }).collect()).collect())
+        .map(|st| st.iter().map(|g| g.iter().map(|t| if info(t).name.is_empty() { None } else { Some(sanitise(&info(t).name)) }).collect()).collect())
         .collect();
+    let agrees = |p: &Vec<Vec<Vec<String>>>| -> bool {
+        if p.len() != want.len() {
+            return false;
+        }
+        let mut seen: BTreeSet<String> = BTreeSet::new();
+        for (ps, ws) in p.iter().zip(want.iter()) {
+            if ps.len() != ws.len() {
+                return false;
+            }
+            for (pg, wg) in ps.iter().zip(ws.iter()) {
+                if pg.len() != wg.len() {
+                    return false;
+                }
+                for (pn, wn) in pg.iter().zip(wg.iter()) {
+                    match wn {
+                        Some(n) => {
+                            if pn != n {
+                                return false;
+                            }
+                        }
+                        None => {
+                            let ok = pn.strip_prefix("unnamed_system_").map(|d| !d.is_empty() && d.chars().all(|c| c.is_ascii_digit())).unwrap_or(false);
+                            if !ok || !seen.insert(pn.clone()) {
+                                return false;
+                            }
+                        }
+                    }
+                }
+            }
+        }
+        true
+    };
     let mut texts: Vec<(String, &Result<String, String>)> = vec![];
     if let Some(dbg) = real_debug {
         texts.push(("{:?}".to_string(), dbg));
@@ -197,8 +231,8 @@ pub fn layout_oracles(key: Option<usize>, lay: &Layout, built: &Built, real_debu
             Ok(text) => match parse_par_seq(text) {
                 Err(e) => bad("C20", format!("plan printed with {} does not parse: {}", spec, e)),
                 Ok(p) => {
-                    if p != want {
-                        bad("C20", format!("plan printed with {} {:?} differs from the executed plan {:?}", spec, p, want));
+                    if !agrees(&p) {
+                        bad("C20", format!("plan printed with {} {:?} differs from the executed plan {:?} (None: an unnamed system, any placeholder unnamed_system_<n>, each a different one)", spec, p, want));
                     }
                 }
             },
